@@ -36,7 +36,7 @@ from ..engine.report import AnalysisError, Run
 from ..engine.resolver import ClassInfo, FuncInfo, Program, parent_map
 from ..engine.util import canon, node_writes, nodes_with_call, u
 from ._c20_util import (Expander, bind_call, branch, calls_where, const_bool, cpath, enum_paths, equal_fact, expand_at,
-                        params_of, presence, rename_and_bind, result_expr, splice_procedures, splice_value_calls, subst_names, walk_own)
+                        params_of, presence, rename_and_bind, result_expr, slot_reads, splice_procedures, splice_value_calls, subst_names, walk_own)
 
 SRC = "microgrid._data_sourcing.microgrid_api_source"
 API = f"{SRC}:MicrogridApiSource"
@@ -183,7 +183,7 @@ def check_tab(run: Run, prog: Program, ro: "Roles") -> None:
         table = next(k for k, v in TABLES.items() if v == cat)
         vcfg = CFG(fn.node, fn.file)
         vx = Expander(fn.node)
-        req_p = fn.params[2]
+        req_p = ro.requests_param(cat, fn)
         loop_vars = {n.ast.target.id for n in vcfg.nodes if n.kind == "for" and isinstance(n.ast, ast.For)
                      and isinstance(n.ast.target, ast.Name) and vx.x(n.ast.iter) in (req_p, f"{req_p}.keys()")}
         raises = [n.id for n in vcfg.nodes if n.kind == "stmt" and isinstance(n.ast, ast.Raise)]
@@ -212,7 +212,7 @@ def check_tab(run: Run, prog: Program, ro: "Roles") -> None:
                                                                       or c.func.attr in ro.validators.values())}  # type: ignore[union-attr]
         if called:
             d2.setdefault(next(iter(cats)) if cats else "<no category test>", set()).update(called)
-    want2 = {k: {v} for k, v in ro.validators.items()}
+    want2 = {k: {v} for k, v in ro.validators.items() if k not in ro.arms}  # (inlined arms are checked as validators above)
     run.check(d2 == want2, "C20.TAB", cr.qual, f"category -> validator: { {k: sorted(v) for k, v in sorted(d2.items())} }",
               "a category is validated by another category's validator", node=cr.node, file=cr.file)
 
@@ -270,7 +270,7 @@ class Roles:
             c = n.value if isinstance(n, (ast.Assign, ast.AnnAssign, ast.Expr)) else None
             aw = isinstance(c, ast.Await)
             c = c.value if isinstance(c, ast.Await) else c
-            if isinstance(c, ast.Call) and _is_self_call(c) and any(hx.x(a) == subs for a in [*c.args, *[k.value for k in c.keywords]]):
+            if isinstance(c, ast.Call) and _is_self_call(c) and any(u(slot_reads(hx.expand(a), SUBS)) == subs for a in [*c.args, *[k.value for k in c.keywords]]):
                 if isinstance(n, ast.Expr) and aw:
                     cr_names.append(c.func.attr)  # type: ignore[union-attr]
                 elif not isinstance(n, ast.Expr) and not aw:
@@ -305,16 +305,24 @@ class Roles:
                             and _is_self_call(s_.value.value):
                         per_cat.setdefault(next(iter(cats)), set()).add(s_.value.value.func.attr)  # type: ignore[union-attr]
                         self._val_calls.setdefault(next(iter(cats)), []).append(s_.value.value)
+        self.arms: dict[str, list[ast.stmt]] = {}
         for cat, hint in VALIDATORS.items():
             got = sorted(per_cat.get(cat, ()))
             self.validators[cat] = got[0] if len(got) == 1 and got[0] in cls.methods else hint
+            if self.validators[cat] not in cls.methods and len(self.cr.params) > 3:
+                # nobody is called for this category and the old name is gone: the validator is played by the
+                # arm of the dispatch itself (inlined into its only caller)
+                arm = self._arm(cat)
+                if arm is not None:
+                    self.arms[cat] = arm
+                    self.validators[cat] = self.cr.name
         # gm: the extractor lookup called per item by gs
         gm_names = []
         val = result_expr(self.gs.node) if self.gs is not None else None
         if self.gs is None:
             for n in walk_own(self.hs.node):
                 if isinstance(n, (ast.Assign, ast.AnnAssign)) and isinstance(n.value, ast.ListComp) and n.value.generators \
-                        and hx.x(n.value.generators[0].iter) == f"{subs}.items()":
+                        and u(slot_reads(hx.expand(n.value.generators[0].iter), SUBS)) == f"{subs}.items()":
                     val = n.value
         if isinstance(val, ast.ListComp) and isinstance(val.elt, ast.Tuple) and val.elt.elts:
             e0 = val.elt.elts[0]
@@ -342,9 +350,44 @@ class Roles:
             return self.cls.methods[uniq[0]]
         raise AnalysisError(f"C20: several candidates for the role of {hint}: {uniq}")
 
+    def _arm(self, cat: str) -> list[ast.stmt] | None:
+        """The statements the dispatch runs for one category (if/elif arm or match case)."""
+        want = f"ComponentCategory.{cat}"
+        cat_p = self.cr.params[2]
+        found: list[list[ast.stmt]] = []
+        for n in ast.walk(self.cr.node):
+            if isinstance(n, ast.If) and equal_fact((canon(n.test), True), cat_p) == want:
+                found.append(n.body)
+            elif isinstance(n, ast.If) and equal_fact((canon(n.test), False), cat_p) == want and n.orelse:
+                found.append(n.orelse)
+            elif isinstance(n, ast.Match) and u(n.subject) == cat_p:
+                for case in n.cases:
+                    pats = case.pattern.patterns if isinstance(case.pattern, ast.MatchOr) else [case.pattern]
+                    if len(pats) == 1 and isinstance(pats[0], ast.MatchValue) and u(pats[0].value) == want and case.guard is None:
+                        found.append(case.body)
+        return found[0] if len(found) == 1 else None
+
+    def requests_param(self, cat: str, fn: FuncInfo) -> str:
+        """The parameter of a category's validator that holds the requests of the component."""
+        if cat in self.arms:
+            return self.cr.params[3]
+        for c in {u(c): c for c in self._val_calls.get(cat, [])}.values():
+            b = bind_call(c, _call_params(fn)) or {}
+            for p_, a in b.items():
+                if isinstance(a, ast.Name) and len(self.cr.params) > 3 and a.id == self.cr.params[3]:
+                    return p_
+        return fn.params[2] if len(fn.params) > 2 else "?"
+
     def validator(self, prog: Program, cat: str) -> FuncInfo:
         """The validator of a category; when the dispatch passes it configuration (a table, the API stream to
-        open, ... - sibling validators merged into one parametrised helper) it is specialised with those arguments."""
+        open, ... - sibling validators merged into one parametrised helper) it is specialised with those arguments;
+        when it was inlined into the dispatch, it is the category's arm."""
+        if cat in self.arms:
+            import copy as _copy
+
+            node = _copy.copy(self.cr.node)
+            node.body = list(self.arms[cat])
+            return FuncInfo(self.cr.name, self.cr.module, node, self.cr.cls, self.cr.outer)
         base = prog.func(f"{API}.{self.validators[cat]}")
         calls = list({u(c): c for c in self._val_calls.get(cat, []) if c.func.attr == base.name}.values())  # type: ignore[union-attr]
         if len(calls) == 1:
@@ -502,7 +545,11 @@ def _subs_stable(cls: ClassInfo) -> bool:
         x = Expander(m.node)
         for n in ast.walk(m.node):
             if isinstance(n, ast.Subscript) and isinstance(n.ctx, (ast.Store, ast.Del)) and x.x(n.value) == SUBS:
-                return False
+                # creating the entry when it is absent is not a replacement
+                mcfg = CFG(m.node, m.file)
+                at = [c.id for c in mcfg.nodes if c.ast is not None and any(w is n for w in node_writes(mcfg, c.id))]
+                if isinstance(n.ctx, ast.Del) or not at or not _guarded(mcfg, x, at, x.x(n.slice), SUBS, want_present=False)[0]:
+                    return False
             if isinstance(n, ast.Attribute) and isinstance(n.ctx, (ast.Store, ast.Del)) and u(n) == SUBS and m.name != "__init__":
                 return False
             if isinstance(n, ast.Call) and isinstance(n.func, ast.Attribute) and n.func.attr in (
@@ -613,7 +660,7 @@ def check_fan(run: Run, prog: Program, st: Stream) -> None:
         for v in vals:
             if isinstance(v, ast.List) and not v.elts:
                 continue
-            c = st.x.expand(v) if v is not None else None
+            c = slot_reads(st.x.expand(v), SUBS) if v is not None else None
             if gs is None:
                 # the builder is inlined: the value itself must be the pairs expression over this
                 # component's subscriptions
@@ -886,13 +933,15 @@ def check_once(run: Run, prog: Program, st: Stream) -> None:
     for cat in VALIDATORS:
         v = st.ro.validator(prog, cat)
         vname = v.name
-        reaches = vname in writers_of_recv or any(
-            _is_self_call(c) and c.func.attr in writers_of_recv for c in ast.walk(v.node) if isinstance(c, ast.Call))  # type: ignore[union-attr]
+        vx_ = Expander(v.node)
+        reaches = any(isinstance(n, ast.Subscript) and isinstance(n.ctx, ast.Store) and vx_.x(n.value) == RECV for n in ast.walk(v.node)) \
+            or any(_is_self_call(c) and c.func.attr in writers_of_recv and c.func.attr != v.name  # type: ignore[union-attr]
+                   for c in ast.walk(v.node) if isinstance(c, ast.Call))
         run.check(reaches, "C20.ONCE", v.qual, f"{vname}: registers the receiver it opens",
                   "the validator does not register an API receiver for the component: the stream task finds "
                   "none and fails on every start, so no message of that component is ever delivered",
                   node=v.node, file=v.file,
-                  instance=f"{v.qual} :: registers the receiver it opens (create-once checked at the write)")
+                  instance=f"{v.qual} [{cat}] :: registers the receiver it opens (create-once checked at the write)")
     # stream tasks: registered only by _update_streams (or a helper spliced into it)
     us = st.ro.us
     reg = Registration(prog, st.ro)
@@ -958,7 +1007,13 @@ def check_once(run: Run, prog: Program, st: Stream) -> None:
     cr = st.ro.cr
     cfg = CFG(cr.node, cr.file)
     x = Expander(cr.node)
-    openers = nodes_with_call(cfg, lambda c: _is_self_call(c) and c.func.attr in st.ro.validators.values())  # type: ignore[union-attr]
+    openers = nodes_with_call(cfg, lambda c: _is_self_call(c) and c.func.attr in st.ro.validators.values()  # type: ignore[union-attr]
+                              and c.func.attr != cr.name)  # type: ignore[union-attr]
+    for arm in st.ro.arms.values():  # validators inlined into the dispatch: the entry of each arm is what must be guarded
+        first = arm[0] if arm else None
+        openers += [n.id for n in cfg.nodes if first is not None and n.ast is not None and (
+            n.ast is first or n.ast is getattr(first, "test", None) or (isinstance(first, (ast.For, ast.AsyncFor, ast.While)) and n.ast is first))
+            and n.id not in openers]
     ok = bool(openers) and _guarded(cfg, x, openers, cr.params[1], RECV, want_present=False)[0]
     run.check(ok, "C20.ONCE", cr.qual, "existing receiver -> nothing to (re)create",
               "validation re-runs receiver creation for a component that already has one", node=cr.node, file=cr.file)
@@ -971,7 +1026,7 @@ def check_once(run: Run, prog: Program, st: Stream) -> None:
             return False
         b = bind_call(c, cr.params[1:])
         return b is not None and set(b) == set(cr.params[1:]) and st.x.x(b[cr.params[1]]) == st.comp_p \
-            and st.x.x(b[cr.params[2]]) == st.cat_p and st.x.x(b[cr.params[3]]) == f"{SUBS}[{st.comp_p}]"
+            and st.x.x(b[cr.params[2]]) == st.cat_p and u(slot_reads(st.x.expand(b[cr.params[3]]), SUBS)) == f"{SUBS}[{st.comp_p}]"
 
     ens = [n for n in nodes_with_call(hcfg, ensures) if hcfg.is_await(n)]
     wit = hcfg.path(hcfg.entry, build, avoid=ens, edge_ok=_normal) if build else None
@@ -1300,10 +1355,43 @@ def check_dedup(run: Run, prog: Program, ro: Roles) -> None:
     ok = len(scans) == 1
     if ok:
         sc = scans[0]
-        ensure = [n.id for n in cfg.nodes if n.ast is not None and any(
-            isinstance(c, ast.Call) and isinstance(c.func, ast.Attribute) and c.func.attr == "setdefault"
-            and cpath(x.expand(c)) == sc.path for part in own_parts(n) for c in [part, *walk_own(part)])]
-        ok = bool(ensure) and cfg.path(cfg.entry, [sc.gate], avoid=ensure) is None
+        def ensures_level(depth: int) -> list[int]:
+            """Nodes after which the slot sc.path[:depth] exists: a setdefault on it, or its creation under an
+            "absent" guard (`if k not in d: d[k] = {}`)."""
+            want_p = sc.path[:depth]
+            out = []
+            for n in cfg.nodes:
+                if n.ast is None:
+                    continue
+                if any(isinstance(c, ast.Call) and isinstance(c.func, ast.Attribute) and c.func.attr == "setdefault"
+                       and cpath(x.expand(c)) == want_p for part in own_parts(n) for c in [part, *walk_own(part)]):
+                    out.append(n.id)
+                    continue
+                for w in node_writes(cfg, n.id):
+                    if isinstance(w, ast.Subscript) and cpath(x.expand(ast.Subscript(value=w.value, slice=w.slice, ctx=ast.Load()))) == want_p \
+                            and _guarded(cfg, x, [n.id], want_p[-1], want_p[0] if depth == 2 else f"{want_p[0]}[{want_p[1]}]",
+                                         want_present=False)[0]:
+                        out.append(n.id)
+            return out
+
+        def known_present(depth: int) -> set[tuple[int, str]]:
+            """Edges taken when the slot is known to exist already (the present side of its membership test)."""
+            want_p = sc.path[:depth]
+            cont_ = want_p[0] if depth == 2 else f"{want_p[0]}[{want_p[1]}]"
+            out = set()
+            for t in cfg.nodes:
+                if t.kind == "test" and t.ast is not None:
+                    pol = presence(expand_at(cfg, x, t.id, t.ast), want_p[-1], cont_)
+                    if pol is not None:
+                        out.add((t.id, "true" if pol == 1 else "false"))
+            return out
+
+        ok = len(sc.path) == 3
+        for depth in (2, 3):
+            ens = ensures_level(depth) if ok else []
+            there = known_present(depth) if ok else set()
+            ok = ok and bool(ens) and cfg.path(cfg.entry, [sc.gate], avoid=ens,
+                                               edge_ok=lambda a, b, lab, there=there: (a, lab) not in there) is None
     run.check(ok, "C20.DEDUP", am.qual, "the request list of (component, metric) is created in place before it is scanned",
               "the per-component / per-metric request list is not ensured before the duplicate scan: the first "
               "request for a component or metric fails (KeyError) and its stream never starts",
